@@ -153,6 +153,18 @@ def one_line_values(sh):
             els = [rng.choice(pool) for _ in range(n_el)]
             value = rng.choice([els, tuple(els), {'k': els}, [els[:3], els]])
             recipe = 'repr-fallback-elements'
+        elif i % 13 == 5:
+            # sequences just below the printers' "cannot fit any practical line" shortcut (shortest possible one-line form > 150 columns, i.e. more than
+            # 50 elements): up to 50 elements no break is forced, whatever the elements are
+            n_el = rng.choice([50, 50, 50, 49, 48, 40, 33, 21, rng.randint(21, 50)])
+            mk = rng.choice(['digits', 'ints', 'strs', 'mixed'])
+            els = [j % 10 if mk == 'digits' else (j * 7 if mk == 'ints' else ('s%d' % j if mk == 'strs' else (j, 's%d' % j, float(j), None, True)[j % 5])) for j in range(n_el)]
+            seq = rng.choice([list, tuple, list, lambda e: e])(els)
+            if mk in ('ints', 'strs') and rng.random() < 0.3:
+                seq = rng.choice([set, frozenset])(els)
+            value = rng.choice([seq, seq, [seq], {'k': seq}, (seq, 1)])
+            recipe = 'sequence-of-up-to-50-elements:%d' % n_el
+            sh.counters['sequences of 21-50 elements (below the practical-width shortcut)'] += 1
         elif kind == 3:
             tname, value = insts[rng.randrange(len(insts))]
             value = rng.choice([value, [value], {'k': value}])
@@ -173,7 +185,7 @@ def one_line_values(sh):
                 # no printer-forced break applies (no comment, no dict with more than 2 pairs, no long sequence):
                 # every group is unforced and everything fits into 10**6 columns
                 sh.violation('small-value-not-on-one-line', 'a value without any printer-forced break is not printed on one line at width 10**6: %r' % line[:300],
-                             {'recipe': recipe, 'width': 10 ** 6, 'L': None})
+                             {'recipe': recipe, 'width': 10 ** 6, 'L': None, 'value_repr': repr(value) if isinstance(recipe, str) else None})
             else:
                 sh.counters['values whose unbounded form is multi-line (printer-forced: dict > 2 pairs / long sequence / comment)'] += 1
             continue
@@ -191,7 +203,8 @@ def one_line_values(sh):
             sh.case(('value', i, w, r), nontrivial=Ln > 4)
             if got != line:
                 sh.violation('one-line-value-broken', 'value with one-line form of %d columns is not printed as that line at width=%d ribbon_width=%d: %r' % (Ln, w, r, got[:300]),
-                             {'recipe': recipe, 'i': i, 'seed': sh.seed, 'width': w, 'ribbon_width': r, 'cfg': cfg, 'L': Ln})
+                             {'recipe': recipe, 'i': i, 'seed': sh.seed, 'width': w, 'ribbon_width': r, 'cfg': cfg, 'L': Ln,
+                              'value_repr': repr(value) if isinstance(recipe, str) else None})
             else:
                 sh.counters['one-line values verified at width, ribbon >= L'] += 1
                 if w == Ln or r == Ln:
@@ -202,11 +215,12 @@ def one_line_values(sh):
 
 
 def small_plain(v):
-    """True if none of the printers' documented forced breaks applies to v (dict with > 2 pairs, very long sequences)."""
+    """True if none of the printers' documented forced breaks applies to v (dict with > 2 pairs; sequences whose shortest possible one-line form,
+    2 + 3n - 2 columns, exceeds the printers' MAX_PRACTICAL_RIBBON_WIDTH of 150, i.e. more than 50 elements)."""
     if isinstance(v, dict):
         return len(v) <= 2 and all(small_plain(k) and small_plain(x) for k, x in v.items())
     if isinstance(v, (list, tuple, set, frozenset)):
-        return len(v) <= 20 and all(small_plain(x) for x in v)
+        return len(v) <= 50 and all(small_plain(x) for x in v)
     return True
 
 
@@ -214,11 +228,16 @@ def replay_term(which, wit):
     from ..runner import Shard
     sh = Shard('replay', 0, 0, 1)
     c = wit['case']
-    if 'recipe' in c and (c['recipe'] is None or c['recipe'] == 'repr-fallback-elements'):
+    if 'recipe' in c and (c['recipe'] is None or (isinstance(c['recipe'], str) and not c.get('value_repr'))):
         print('non-recipe value (stdlib / pretty_call), index', c.get('i'), 'seed', c.get('seed'), c)
         return False
     if 'recipe' in c:
-        value = V.build(c['recipe'])
+        if isinstance(c['recipe'], str):
+            import decimal
+            import fractions
+            value = eval(c['value_repr'], {'Decimal': decimal.Decimal, 'Fraction': fractions.Fraction})
+        else:
+            value = V.build(c['recipe'])
         line = prettyprinter.pformat(value, width=10 ** 6, ribbon_width=10 ** 6)
         got = prettyprinter.pformat(value, **(c.get('cfg') or {'width': c['width'], 'ribbon_width': c['width']}))
         if c.get('L') is None:
